@@ -591,6 +591,46 @@ def gen_DatConsts():
             if isinstance(n, ast.Compare) and "len(rot_pub_keys)" in ast.unparse(n.left) and isinstance(n.ops[0], ast.Gt):
                 mx = _lit(n.comparators[0]) or 0
     out.append(f"def rotMetaRsaMaxKeys : Nat := {mx}  -- RotMetaRSA.load_from_config: len(rot_pub_keys) > N")
+    # RotMetaEcc: width of one CRTK table item in parse(), hash width of calculate_hash(), label of the single-key fallback
+    item_expr = hash_expr = fb_expr = "?"
+    fn = _fun(rme, "parse")
+    if fn is not None:
+        assigns = {n.targets[0].id: n.value for n in ast.walk(fn)
+                   if isinstance(n, ast.Assign) and len(n.targets) == 1 and isinstance(n.targets[0], ast.Name)}
+        mults = set()
+        for n in ast.walk(fn):
+            if isinstance(n, ast.Slice) and n.lower is not None and isinstance(n.lower, ast.BinOp) and isinstance(n.lower.op, ast.Mult) \
+                    and "rot_item_idx" in ast.unparse(n.lower.left):
+                m = n.lower.right
+                if isinstance(m, ast.Name) and m.id in assigns:
+                    m = assigns[m.id]
+                mults.add(ast.unparse(m))
+        if len(mults) == 1:
+            item_expr = mults.pop()
+    ks = None
+    for n in (rme.body if rme else []):
+        if isinstance(n, ast.FunctionDef) and n.name == "key_size":
+            ks = n
+    if ks is not None:
+        rets = [ast.unparse(n.value) for n in ast.walk(ks) if isinstance(n, ast.Return) and n.value is not None]
+        if len(rets) == 1:
+            hash_expr = rets[0]
+    fn = _fun(rme, "calculate_hash")
+    uses_key_size = fn is not None and any(isinstance(n, ast.JoinedStr) and ast.unparse(n) == "f'sha{self.key_size}'" for n in ast.walk(fn))
+    fn = _fun(ecc, "calculate_hash")
+    if fn is not None:
+        assigns = {n.targets[0].id: n.value for n in ast.walk(fn)
+                   if isinstance(n, ast.Assign) and len(n.targets) == 1 and isinstance(n.targets[0], ast.Name)}
+        for n in ast.walk(fn):
+            if isinstance(n, ast.JoinedStr) and len(n.values) == 2 and isinstance(n.values[0], ast.Constant) and n.values[0].value == "sha" \
+                    and isinstance(n.values[1], ast.FormattedValue):
+                v = n.values[1].value
+                if isinstance(v, ast.Name) and v.id in assigns:
+                    v = assigns[v.id]
+                fb_expr = ast.unparse(v)
+    out.append(f'def eccItemWidthExpr : String := "{item_expr}"  -- RotMetaEcc.parse: multiplier of rot_item_idx in the table slice')
+    out.append(f'def eccTableHashBitsExpr : String := "{hash_expr if uses_key_size else "?"}"  -- RotMetaEcc.key_size, used as f"sha{{self.key_size}}" in calculate_hash')
+    out.append(f'def eccSingleKeyHashBitsExpr : String := "{fb_expr}"  -- DebugCredentialCertificateEcc.calculate_hash fallback: f"sha{{...}}"')
     out.append("")
 
     # ---- DAC
